@@ -1,5 +1,10 @@
 """Engine `monitor` (C20): real `treadmill.sproc.appmonitor.reevaluate` vs Lean `TmVerif.Monitor`.
 
+The `state` dictionary `reevaluate` works on is the one the real `_run_sync` creates, and it is filled by the
+real watch callbacks `_run_sync` registers (`_scheduled_watch` on the children of /scheduled - delivered in
+arbitrary order, as ZooKeeper does -, `_appmonitors_watch`, and the per-monitor `_monitor_data_watch` with the
+YAML payload): `_run_sync(once=True)` is run once on a fake zk client that records the callbacks.
+
 Case = {'ops': [...]}, ops:
   ['mon', name, count, policy]    state['monitors'][name] = conf (as `_monitor_data_watch` builds it)
   ['delmon', name]
@@ -98,7 +103,7 @@ def run_impl(case, pid):
 
     run = fw.ImplRun()
     now = [1000.0]
-    state = {'scheduled': {}, 'monitors': {}, 'suspended': {}}
+    state = None        # created by the real `_run_sync` (captured below)
     last_waited = {}
     exact = {}          # name -> Fraction available, exact shadow for boundary detection only
     poisoned = False    # a float-boundary floor happened: stop comparing (model uses exact arithmetic)
@@ -134,6 +139,48 @@ def run_impl(case, pid):
             raise Exception('other')
         return mock.Mock()
 
+    # ---- the real glue: `_run_sync` on a recording zk client ------------------------------------------
+    import random as _random
+    import yaml as _yaml
+    shuffle_rng = _random.Random(len(case['ops']) * 7919 + 13)
+    watches = {}            # path -> children-watch callback
+    data_watches = {}       # monitor name -> data-watch callbacks registered for it (newest last)
+    mon_nodes = {}          # monitor name -> yaml payload (the /app-monitors/<name> nodes)
+    sched_all = {}          # app name -> instance names (the children of /scheduled)
+
+    class _Stat(object):
+        version = 0
+
+    class _Event(object):
+        def __init__(self, type_):
+            self.type = type_
+
+    class _FakeZk(object):
+        def ChildrenWatch(self, path):                                   # pylint: disable=invalid-name
+            def deco(func):
+                watches[path] = func
+                func([])                        # kazoo calls the function once on registration
+                return func
+            return deco
+
+    class _FakeDataWatch(object):
+        def __init__(self, _client, path):
+            self.name = path.rsplit('/', 1)[1]
+
+        def __call__(self, func):
+            data_watches.setdefault(self.name, []).append(func)
+            if self.name in mon_nodes:
+                func(mon_nodes[self.name], _Stat(), None)
+            else:
+                func(None, None, None)
+            return func
+
+    captured = {}
+
+    def capture_reevaluate(_api, _alerter, st, _zk, lw):
+        captured['state'] = st
+        return lw
+
     def alert_f(instance, summary, **kwargs):
         kind = {'Monitor active again': 0, 'Monitor suspended: Rate limited': 1,
                 'Monitor suspended: App not configured': 2, 'Monitor suspended: Unable to start': 3,
@@ -141,31 +188,56 @@ def run_impl(case, pid):
         alerts.append('%d:%d' % (name_id(instance), kind))
 
     zkupd = mock.Mock()
+    ctx = mock.Mock()
+    ctx.GLOBAL.zk.conn = _FakeZk()
+    ctx.GLOBAL.cell = 'cell'
     with mock.patch('time.time', lambda: now[0]), \
+            mock.patch('time.sleep', lambda _s: None), \
             mock.patch('treadmill.restclient.post', post), \
-            mock.patch('treadmill.zkutils.update', zkupd):
+            mock.patch('treadmill.zkutils.update', zkupd), \
+            mock.patch.object(appmonitor, 'context', ctx), \
+            mock.patch.object(appmonitor, 'make_alerter', lambda _d, _c: alert_f), \
+            mock.patch.object(appmonitor.masterapi, 'get_suspended_appmonitors', lambda _zk: {}), \
+            mock.patch.object(appmonitor.zkwatchers, 'ExistingDataWatch', _FakeDataWatch), \
+            mock.patch.object(appmonitor.utils, 'exit_on_unhandled', lambda f: f):
+        # the real `_run_sync`, once: it creates `state` and registers the watches
+        with mock.patch.object(appmonitor, 'reevaluate', capture_reevaluate):
+            appmonitor._run_sync('http://x', '/nonexistent', True)                 # pylint: disable=protected-access
+        state = captured['state']
+        sched_watch = [f for pth, f in watches.items() if pth.rstrip('/').endswith('scheduled')][0]
+        mons_watch = [f for pth, f in watches.items() if not pth.rstrip('/').endswith('scheduled')][0]
         for op in case['ops']:
             k = op[0]
             if k == 'mon':
                 _, n, count, policy = op
-                # what _monitor_data_watch stores
-                state['monitors'][app(n)] = {
-                    'count': count, 'available': 2.0 * count, 'last_update': now[0],
-                    'policy': policy, 'rate': (2.0 * count / appmonitor._INTERVAL)}
+                conf = {'count': count}
+                if policy is not None:
+                    conf['policy'] = policy
+                known = app(n) in mon_nodes
+                mon_nodes[app(n)] = _yaml.safe_dump(conf)
+                if known and data_watches.get(app(n)):
+                    # the node's data changed: its (latest) data watch fires
+                    data_watches[app(n)][-1](mon_nodes[app(n)], _Stat(), _Event('CHANGED'))
+                else:
+                    # a new child of /app-monitors: the children watch fires and sets up the data watch
+                    mons_watch(sorted(mon_nodes))
                 exact[app(n)] = Fraction(2 * count)
                 run.op('mon %d %d %s' % (n, count, policy if policy else 'none'), 'ok')
                 n_change += 1
             elif k == 'delmon':
-                state['monitors'].pop(app(op[1]), None)
+                if app(op[1]) in mon_nodes:
+                    del mon_nodes[app(op[1])]
+                    for f_ in data_watches.pop(app(op[1]), [])[-1:]:
+                        f_(None, None, _Event('DELETED'))
+                    mons_watch(sorted(mon_nodes))
                 exact.pop(app(op[1]), None)
                 run.op('delmon %d' % op[1], 'ok')
             elif k == 'sched':
                 _, n, ids = op
-                names = sorted(inst(n, i) for i in ids)
-                if names:
-                    state['scheduled'][app(n)] = names
-                else:
-                    state['scheduled'].pop(app(n), None)
+                sched_all[app(n)] = [inst(n, i) for i in ids]
+                children = [i_ for l_ in sched_all.values() for i_ in l_]
+                shuffle_rng.shuffle(children)           # ZooKeeper returns children in no particular order
+                sched_watch(children)
                 run.op('sched %d %s' % (n, ','.join(str(i) for i in sorted(ids)) or '-'), 'ok')
                 n_change += 1
             elif k == 'tick':
@@ -179,7 +251,9 @@ def run_impl(case, pid):
                 zkupd.reset_mock()
                 before = {n: dict(c) for n, c in state['monitors'].items()}
                 susp_before = dict(state['suspended'])
-                grouped = {n: list(v) for n, v in state['scheduled'].items()}
+                # the instances of each app in creation order, from the history itself (not from the state the
+                # watch built)
+                grouped = {n: sorted(v) for n, v in sched_all.items() if v}
                 # exact shadow refill + boundary detection (harness bookkeeping, not the oracle)
                 boundary = False
                 for n, c in before.items():
